@@ -438,57 +438,69 @@ def string_obligations(chk):
 
 def structure_obligations(chk, src_root):
     """Syntactic (call-site) obligations on the encoder closures, which the symbolic executor does not enter: they tie the proved pieces to every
-    place where the encoder writes a number, a string or orders members.  A failed one names the line; the bounded stand-in supplies the input."""
+    place where the encoder writes a number, a string or orders members.  A site that is recognised and contradicts the obligation is a failed obligation
+    (the bounded stand-in supplies the input); a site that is no longer recognised (helper extracted, branch reshaped) is *undecided*, never a violation."""
     import codecs
     from vf.pyvc.contract import Obligation
     rel = 'stix2/canonicalization/Canonicalize.py'
     tree = ast.parse(open(os.path.join(src_root, rel)).read())
     out = []
 
-    def ob(name, ok, detail=''):
-        o = Obligation('canonicalization.Canonicalize', name, 'call-requires', [], z3.BoolVal(bool(ok)), True)
-        o.result = 'discharged' if ok else 'failed'; o.backend = 'trivial'; o.detail = detail
+    def ob(name, verdict, detail=''):
+        """verdict: True (discharged) / False (failed: the recognised site contradicts the obligation) / None (site not recognised: undecided)"""
+        o = Obligation('canonicalization.Canonicalize', name, 'call-requires', [], z3.BoolVal(bool(verdict)), True)
+        o.result = 'discharged' if verdict else ('undecided' if verdict is None else 'failed'); o.backend = 'trivial'; o.detail = detail
         chk.lemmas.append(o); out.append(o)
-        if not ok: chk.violation('canonicalization.Canonicalize#' + name.split(':')[0], f'call-site obligation fails: {name} {detail}', {'obligation': name}, no_input=True)
-    try:
-        mk = E.find_def(tree, '_make_iterencode'); canon = E.find_def(tree, 'canonicalize'); init = E.find_def(tree, 'JSONEncoder.__init__'); itere = E.find_def(tree, 'JSONEncoder.iterencode')
-    except Unsupported as u:
-        chk.undecided_notes.append(f'structure obligations of {rel}: {u}'); return out
-    # (1) numbers: every branch guarded by isinstance(v, int) / isinstance(v, float) writes convert2Es6Format(v)
+        if verdict is None: chk.undecided_notes.append(f'call-site obligation not decidable on the current source: {name} {detail}')
+        elif not verdict: chk.violation('canonicalization.Canonicalize#' + name.split(':')[0], f'call-site obligation fails: {name} {detail}', {'obligation': name}, no_input=True)
+    # (1) numbers: every branch guarded by isinstance(v, int) / isinstance(v, float), anywhere in the module, writes convert2Es6Format(v)
     n_sites = 0
-    for node in ast.walk(mk):
+    for node in ast.walk(tree):
         if isinstance(node, ast.If) and isinstance(node.test, ast.Call) and ast.unparse(node.test.func) == 'isinstance' and len(node.test.args) == 2 \
                 and isinstance(node.test.args[1], ast.Name) and node.test.args[1].id in ('int', 'float') and isinstance(node.test.args[0], ast.Name):
             v = node.test.args[0].id; n_sites += 1
             calls = [c for st in node.body for c in ast.walk(st) if isinstance(c, ast.Call) and ast.unparse(c.func).split('.')[-1] == 'convert2Es6Format' and [ast.unparse(a) for a in c.args] == [v]]
             others = [ast.unparse(c)[:40] for st in node.body for c in ast.walk(st) if isinstance(c, ast.Call) and ast.unparse(c.func) in ('_floatstr', '_intstr', 'repr', 'str', 'float.__repr__', 'int.__str__', 'format')]
-            ob(f'number branch at line {node.lineno}: `{v}` ({node.test.args[1].id}) is written by convert2Es6Format({v}) and by nothing else', len(calls) == 1 and not others, f'calls: {len(calls)}, other writers: {others}')
-    ob(f'number branches found in _make_iterencode: {n_sites} (int and float for list items, dictionary keys, dictionary values, top level)', n_sites >= 8)
-    # (2) strings: the encoder used is encode_basestring when ensure_ascii is false, and canonicalize() leaves ensure_ascii / separators / indent at defaults that mean "no whitespace, no ASCII escaping"
-    sig, _, _ = E.real_signature(init)
-    defaults = {n: (ast.literal_eval(d) if d is not None else None) for n, d, _ in sig if n != 'self'}
-    ob('JSONEncoder defaults: ensure_ascii=False, separators=(",", ":"), indent=None, check_circular=True', defaults.get('ensure_ascii') is False and defaults.get('separators') == (',', ':') and defaults.get('indent') is None and defaults.get('check_circular') is True, str(defaults))
-    ctor = [c for c in ast.walk(canon) if isinstance(c, ast.Call) and ast.unparse(c.func) == 'JSONEncoder']
-    ok = len(ctor) == 1 and not ctor[0].args and [(k.arg, ast.unparse(k.value)) for k in ctor[0].keywords] == [('sort_keys', 'True')]
-    ob('canonicalize builds JSONEncoder(sort_keys=True) and overrides no other option', ok, ast.unparse(ctor[0]) if ctor else 'no constructor call')
-    sel = [n for n in ast.walk(itere) if isinstance(n, ast.If) and ast.unparse(n.test) == 'self.ensure_ascii']
-    ok = len(sel) == 1 and ast.unparse(sel[0].body[0]) == '_encoder = encode_basestring_ascii' and ast.unparse(sel[0].orelse[0]) == '_encoder = encode_basestring'
-    ob('iterencode selects encode_basestring when ensure_ascii is false', ok)
+            verdict = True if (calls and not others) else (False if others else None)
+            ob(f'number branch at line {node.lineno}: `{v}` ({node.test.args[1].id}) is written by convert2Es6Format({v}) and by nothing else', verdict, f'calls: {len(calls)}, other writers: {others}')
+    if n_sites == 0: chk.undecided_notes.append(f'structure obligations of {rel}: no isinstance(v, int|float) branch recognised')
+    # (2) strings / whitespace: canonicalize() leaves ensure_ascii / separators / indent at defaults that mean "no whitespace, no ASCII escaping"
+    try:
+        init = E.find_def(tree, 'JSONEncoder.__init__'); sig, _, _ = E.real_signature(init)
+        defaults = {n: (ast.literal_eval(d) if d is not None else None) for n, d, _ in sig if n != 'self'}
+        ob('JSONEncoder defaults: ensure_ascii=False, separators=(",", ":"), indent=None, check_circular=True',
+           defaults.get('ensure_ascii') is False and defaults.get('separators') == (',', ':') and defaults.get('indent') is None and defaults.get('check_circular') is True, str(defaults))
+    except (Unsupported, ValueError) as ex: ob('JSONEncoder defaults: ensure_ascii=False, separators=(",", ":"), indent=None, check_circular=True', None, str(ex))
+    try:
+        canon = E.find_def(tree, 'canonicalize')
+        ctor = [c for c in ast.walk(canon) if isinstance(c, ast.Call) and ast.unparse(c.func) == 'JSONEncoder']
+        if len(ctor) != 1: ob('canonicalize builds JSONEncoder(sort_keys=True) and overrides no other option', None, f'{len(ctor)} constructor calls')
+        else: ob('canonicalize builds JSONEncoder(sort_keys=True) and overrides no other option', not ctor[0].args and [(k.arg, ast.unparse(k.value)) for k in ctor[0].keywords] == [('sort_keys', 'True')], ast.unparse(ctor[0]))
+    except Unsupported as ex: ob('canonicalize builds JSONEncoder(sort_keys=True) and overrides no other option', None, str(ex))
+    try:
+        itere = E.find_def(tree, 'JSONEncoder.iterencode')
+        sel = [n for n in ast.walk(itere) if isinstance(n, ast.If) and ast.unparse(n.test) == 'self.ensure_ascii']
+        ok = len(sel) == 1 and ast.unparse(sel[0].body[0]) == '_encoder = encode_basestring_ascii' and ast.unparse(sel[0].orelse[0]) == '_encoder = encode_basestring'
+        ob('iterencode selects encode_basestring when ensure_ascii is false', True if ok else None)
+    except (Unsupported, IndexError) as ex: ob('iterencode selects encode_basestring when ensure_ascii is false', None, str(ex))
     # (3) member order: sorted(dct.items(), key=lambda kv: kv[0].encode(<UTF-16 big endian>)), no reverse
-    srt = [c for c in ast.walk(mk) if isinstance(c, ast.Call) and ast.unparse(c.func) == 'sorted']
-    ok = False; detail = 'no sorted() call'
+    srt = [c for c in ast.walk(tree) if isinstance(c, ast.Call) and ast.unparse(c.func) == 'sorted']
+    verdict = None; detail = f'{len(srt)} sorted() calls'
     if len(srt) == 1:
         c = srt[0]; kws = {k.arg: k.value for k in c.keywords}; detail = ast.unparse(c)
         key = kws.get('key')
-        if set(kws) == {'key'} and isinstance(key, ast.Lambda) and len(key.args.args) == 1 and len(c.args) == 1 and ast.unparse(c.args[0]).endswith('.items()'):
+        if 'reverse' in kws and not (isinstance(kws['reverse'], ast.Constant) and kws['reverse'].value is False): verdict = False
+        elif isinstance(key, ast.Lambda) and len(key.args.args) == 1 and len(c.args) == 1 and ast.unparse(c.args[0]).endswith('.items()'):
             a = key.args.args[0].arg; b = key.body
             if isinstance(b, ast.Call) and ast.unparse(b.func) == f'{a}[0].encode' and len(b.args) == 1 and isinstance(b.args[0], ast.Constant) and not b.keywords:
-                try: ok = codecs.lookup(b.args[0].value).name == 'utf-16-be'
-                except LookupError: ok = False
-    ob('members are sorted by the UTF-16 big-endian bytes of the key, ascending', ok, detail)
-    use = [n for n in ast.walk(mk) if isinstance(n, ast.If) and ast.unparse(n.test) == '_sort_keys']
-    ok = len(use) == 1 and len(use[0].body) == 1 and isinstance(use[0].body[0], ast.Assign) and isinstance(use[0].body[0].value, ast.Call) and ast.unparse(use[0].body[0].value.func) == 'sorted'
-    ob('the sorted sequence is what the member loop iterates over when sort_keys is set', ok and any(isinstance(n, ast.For) and ast.unparse(n.iter) == ast.unparse(use[0].body[0].targets[0]) for n in ast.walk(mk)) if ok else False)
+                try: verdict = codecs.lookup(b.args[0].value).name == 'utf-16-be'
+                except (LookupError, TypeError): verdict = False
+            elif ast.unparse(b) == f'{a}[0]': verdict = False          # plain str order = code-point order, which differs from UTF-16 order above U+FFFF
+    ob('members are sorted by the UTF-16 big-endian bytes of the key, ascending', verdict, detail)
+    use = [n for n in ast.walk(tree) if isinstance(n, ast.If) and ast.unparse(n.test) == '_sort_keys']
+    ok = len(use) == 1 and len(use[0].body) == 1 and isinstance(use[0].body[0], ast.Assign) and isinstance(use[0].body[0].value, ast.Call) and ast.unparse(use[0].body[0].value.func) == 'sorted' \
+        and any(isinstance(n, ast.For) and ast.unparse(n.iter) == ast.unparse(use[0].body[0].targets[0]) for n in ast.walk(tree))
+    ob('the sorted sequence is what the member loop iterates over when sort_keys is set', True if ok else None)
     for name, claim in key_order_lemmas(): chk.lemma('UTF-16: ' + name, claim)
     chk.assume('str.encode("utf-16_be") writes the UTF-16 code units of the string, two bytes each, high byte first; bytes compare lexicographically; sorted() is a stable total sort (CPython)')
     chk.say(f'  [P] structure obligations of the encoder: {len(out)} call-site obligations, 3 ordering lemmas')
